@@ -11,7 +11,7 @@ if [ "${INPLACE:-0}" = 1 ]; then
   trap 'git -C /repo checkout -- .' EXIT
 else
   WT=/tmp/trial-$$; git -C /repo worktree add --detach $WT HEAD >/dev/null 2>&1 || exit 2
-  trap 'git -C /repo worktree remove --force $WT >/dev/null 2>&1; rm -rf $WT /tmp/trial-work-$$' EXIT
+  trap 'if [ -n "${KEEP:-}" ]; then mkdir -p "$KEEP"; cp /tmp/trial-work-$$/found/*.tape "$KEEP"/ 2>/dev/null; fi; git -C /repo worktree remove --force $WT >/dev/null 2>&1; rm -rf $WT /tmp/trial-work-$$' EXIT
   git -C $WT apply "$P" || { echo "patch does not apply"; exit 2; }
   export VERIF_REPO=$WT VERIF_WORK=/tmp/trial-work-$$ VERIF_EVIDENCE_DIR=/tmp/trial-work-$$/evidence
 fi
